@@ -3,6 +3,7 @@ package mapr
 import (
 	"errors"
 	"fmt"
+	"io"
 	"os"
 	"strings"
 
@@ -225,8 +226,17 @@ func (g *GroupSet) getOutfileFD(query *Query) (*os.File, error) {
 	return os.OpenFile(query.Outfile.FilePath, os.O_CREATE|os.O_WRONLY|os.O_APPEND, 0666)
 }
 
-func (g *GroupSet) resultWriteUnformatted(query *Query, rows []result, fd *os.File, writeHeader, finalResult bool) error {
+func (g *GroupSet) resultWriteUnformatted(query *Query, rows []result, outFd *os.File, writeHeader, finalResult bool) error {
 	lastColumn := len(query.Select) - 1
+
+	// In append mode the data goes straight into the outfile. Collect it and hand it over
+	// with one single write at the end, so that an interrupted client never leaves half a
+	// header (which no later run would complete) or half a row behind.
+	var fd io.StringWriter = outFd
+	var appendBuf strings.Builder
+	if query.Outfile.AppendMode {
+		fd = &appendBuf
+	}
 
 	if writeHeader {
 		if err := g.resultWriteUnformattedHeader(query, fd, lastColumn); err != nil {
@@ -258,6 +268,12 @@ func (g *GroupSet) resultWriteUnformatted(query *Query, rows []result, fd *os.Fi
 		}
 	}
 
+	if query.Outfile.AppendMode {
+		if _, err := outFd.WriteString(appendBuf.String()); err != nil {
+			return err
+		}
+	}
+
 	if !query.Outfile.AppendMode && finalResult {
 		tmpOutfile := fmt.Sprintf("%s.tmp", query.Outfile.FilePath)
 		vhook.At("outfile.step", "out.rename")
@@ -271,7 +287,7 @@ func (g *GroupSet) resultWriteUnformatted(query *Query, rows []result, fd *os.Fi
 	return nil
 }
 
-func (g *GroupSet) resultWriteUnformattedHeader(query *Query, fd *os.File, lastColumn int) (err error) {
+func (g *GroupSet) resultWriteUnformattedHeader(query *Query, fd io.StringWriter, lastColumn int) (err error) {
 	for i, sc := range query.Select {
 		vhook.At("outfile.step", "header.field")
 		if _, err = fd.WriteString(sc.FieldStorage); err != nil {
